@@ -42,7 +42,13 @@ Preds == << N(1), N(2), N(0), NumE(Rat(3, 2)), Bin("div", N(0), N(0)), LastE, Bi
             \* position() / last() inside the arguments of another call keep the predicate's context
             Call(<<"n","o","t">>, <<Bin("eq", PosE, LastE)>>), Call(<<"b","o","o","l","e","a","n">>, <<Bin("mod", PosE, N(2))>>), Call(<<"r","o","u","n","d">>, <<Bin("div", LastE, N(2))>>),
             \* a numeric predicate without any number in its text: string-length(@x) is 1 where @x = "1" (and 0 elsewhere)
-            Call(<<"s","t","r","i","n","g","-","l","e","n","g","t","h">>, <<AttrX>>) >>
+            Call(<<"s","t","r","i","n","g","-","l","e","n","g","t","h">>, <<AttrX>>),
+            \* a predicate inside the predicate has its own context (node, position, size) and gives the outer one back afterwards:
+            \* [b[@x] and @x] evaluates the second @x from the outer node; [b[last()]] counts the b children, not the outer list
+            Bin("and", Rel(<<StepP("child", T_name("", <<"b">>), <<AttrX>>)>>), AttrX),
+            Rel(<<StepP("child", T_name("", <<"b">>), <<LastE>>)>>),
+            Rel(<<StepP("child", T_any, <<Bin("eq", PosE, LastE)>>)>>),
+            Call(<<"n","o","t">>, <<Rel(<<StepP("child", T_any, <<Bin("eq", PosE, N(2))>>)>>)>>) >>
 PredAxes == IF Scale = "small"
             THEN <<"child", "descendant", "following-sibling", "ancestor", "preceding-sibling", "preceding", "attribute">>
             ELSE <<"child", "descendant", "descendant-or-self", "following-sibling", "following",
